@@ -17,6 +17,7 @@ mod s_repro;
 mod s_wrapper;
 mod s_build3d;
 mod s_cli;
+mod s_robust;
 mod s_trace;
 
 fn main() {
@@ -48,6 +49,8 @@ fn main() {
         "ff" => s_ff::run(&mut out, seed, &tier),
         "sd" => s_sd::run(&mut out, seed, &tier),
         "trace" => s_trace::run(&mut out, &rest[0]),
+        "why" => s_trace::why_abort(&mut out),
+        "robust" => s_robust::run(&mut out, seed, &tier),
         "cli" => s_cli::run(&mut out, seed, &tier),
         "build3d" => s_build3d::run(&mut out, seed, &tier),
         "wrapper" => s_wrapper::run(&mut out, seed, &tier),
